@@ -135,7 +135,7 @@ def _alarm(signum, frame):
 def guarded(fn, case, timeout):
     """Run fn(case) under the per-case watchdog; map escapes to Results."""
     old = signal.signal(signal.SIGALRM, _alarm)
-    signal.setitimer(signal.ITIMER_REAL, timeout)
+    signal.setitimer(signal.ITIMER_REAL, timeout, 1.0)   # re-fires every second: an alarm swallowed inside a gc callback is retried
     try:
         res = fn(case)
         signal.setitimer(signal.ITIMER_REAL, 0)
